@@ -4,7 +4,16 @@ proof: coq/proofs/PrivGraph_Proofs.v (general theorems over every tree, every se
 every device), props/C04.v (+ per-platform by-computation theorems over Gen_PrivGraph.v).
 tie: Gen_PrivGraph.v regenerated from the source; correspondence `net-nav` of model/PrivGraph.v
 [run_acquire] against the real sync and asyncio drivers over SimDevice on the same scenarios;
-an oracle that decides the property on the device's own log from the VENDOR tables of SimDevice."""
+an oracle that decides the property on the device's own log from the VENDOR tables of SimDevice.
+
+Scope decision (round 4): C03 carries the proviso "as long as the device's mode is changed only by the
+driver's own actions"; C04 does not.  "From any privilege level the driver has navigated to" says where
+the DEVICE is (a level of the driver's table that the driver's own typing took it to — the user's lines
+are typed by the driver too), not that the driver REMEMBERS that level correctly.  So histories in which
+a user line sent through send_command / send_configs moved the device (IOS "end" inside a config list,
+Junos "commit and-quit", send_command("configure terminal")) are inside C04's quantifier:
+acquire_priv(target) must leave the device in the target whatever _current_priv_level says
+(suite `history`).  Outside: levels sharing a prompt when the remembered level is not the right one."""
 import json
 import os
 import time
@@ -31,12 +40,33 @@ def _simdevice():
     return simdevice
 
 
-def make_device(variant, **kw):
+# lines a USER may type that make the device leave its mode although they are no navigation command of
+# the vendor table (vendor behaviour, written independently of scrapli): {platform: {mode | "session": {line: mode'}}}
+USER_MOVES = {
+    "juniper_junos": {m: {"commit and-quit": "exec"} for m in ("configuration", "configuration_exclusive", "configuration_private")},
+    "arista_eos": {"session": {"commit": "privilege_exec"}},
+}
+VARY = (None, "counter", "clock")
+
+
+def vary_host(platform, host, kind, n):
+    """host part of the n-th prompt a device with a varying prompt prints (no wall clock: the 'time' is n)"""
+    if kind == "counter":
+        return "%s-%d" % (host, n)
+    h, m, sec = 12 + (n // 3600) % 12, (n // 60) % 60, n % 60
+    if platform == "arista_eos":      # EOS `prompt %H %D{%H:%M:%S}%P`
+        return "%s %02d:%02d:%02d" % (host, h, m, sec)
+    return "%s-%02d.%02d.%02d" % (host, h, m, sec)
+
+
+def make_device(variant, vary=None, **kw):
     sd = _simdevice()
 
     class C04Device(sd.SimDevice):
         """SimDevice + (a) an optional custom vendor table, (b) `mute`: transitions after which the
-        device says nothing more, (c) a cap on executed lines (non-termination guard)."""
+        device says nothing more, (c) a cap on executed lines (non-termination guard: a step budget, no
+        clock), (d) `vary`: the text of the prompt differs every time it is printed (counter / time of
+        day in the host part) while the mode it stands for stays the same, (e) USER_MOVES."""
 
         def __init__(self, platform, table=None, **k):
             super().__init__("generic" if table is not None else platform, **k)
@@ -44,7 +74,22 @@ def make_device(variant, **kw):
                 self.t = table
                 self.platform = platform
                 self.mode = k.get("login_mode") or table["login_modes"][-1]
+                self.host = ""
             self.mute = set()
+            self.vary = vary
+            self.nprompt = 0
+            self.moves = USER_MOVES.get(platform, {})
+
+        def prompt(self):
+            if not self.vary:
+                return super().prompt()
+            self.nprompt += 1
+            saved = self.host
+            self.host = vary_host(self.platform, saved, self.vary, self.nprompt)
+            try:
+                return super().prompt()
+            finally:
+                self.host = saved
 
         def _return(self):
             raw = bytes(self.line)
@@ -56,6 +101,14 @@ def make_device(variant, **kw):
                 return
             if len(self.log) > 600:
                 raise Runaway()
+            mv = self.moves.get("session" if self.mode.startswith("session:") else self.mode, {})
+            if self.dialog is None and line in mv:
+                self.line = bytearray()
+                self.log.append((self.mode, raw, b""))
+                self.mode = mv[line]
+                self.submode = ""
+                self._emit(self.nl + self.prompt())
+                return
             super()._return()
 
     return C04Device(variant["platform"], table=variant.get("vendor"), **kw)
@@ -167,18 +220,17 @@ def observe_tables(variant, d, dev):
     saved = dev.mode
     for n in names:
         dev.mode = mode_of(variant, n)
-        p = dev.prompt().decode("latin-1")
-        try:
-            a = [names.index(x) for x in d._determine_current_priv(p)]
-        except Exception:  # noqa: no level matches
-            a = []
-        try:
-            b = [names.index(x) for x in d._determine_current_priv(p.strip())]
-        except Exception:  # noqa
-            b = []
-        if a != b:
-            raise RuntimeError("classification of %r depends on surrounding blanks: %r %r" % (p, a, b))
-        cls.append(a)
+        seen = []
+        for _ in range(3 if dev.vary else 1):   # a varying prompt: every printed text must classify alike
+            p = dev.prompt().decode("latin-1")
+            for q in (p, p.strip()):
+                try:
+                    seen.append((q, [names.index(x) for x in d._determine_current_priv(q)]))
+                except Exception:  # noqa: no level matches
+                    seen.append((q, []))
+        if any(c != seen[0][1] for (_, c) in seen):
+            raise RuntimeError("classification of the prompt of %s depends on surrounding blanks / the varying part: %r" % (n, seen))
+        cls.append(seen[0][1])
     dev.mode = saved
     return names, order, cls
 
@@ -187,7 +239,7 @@ def run_case(variant, stack, src, dst, fault, policy=("whole",), blocking=None):
     """navigate to src (compliant device, right password), arm the fault, acquire_priv(dst)"""
     sd = _simdevice()
     warnings.simplefilter("ignore")
-    dev = make_device(variant, secret=SECRET)
+    dev = make_device(variant, vary=fault.get("vary"), secret=SECRET)
     dev.start()
     d = build_driver(variant, stack, dev, policy, blocking)
     r = sd.Runner(stack)
@@ -225,6 +277,101 @@ def run_case(variant, stack, src, dst, fault, policy=("whole",), blocking=None):
         return obs
     finally:
         r.close()
+
+
+def default_level(variant):
+    if variant.get("levels") is not None:
+        return variant["levels"][0][0]
+    dev = make_device(variant)
+    return build_driver(variant, "sync", dev, ("whole",)).default_desired_privilege_level
+
+
+def user_moves(variant):
+    """[(level X, op, line, mode')]: lines a user can send through send_command(s) (typed at the default
+    level) or send_configs(privilege_level=X) (typed at X) that make the device LEAVE that level — from the
+    vendor table of the device and USER_MOVES, never from scrapli's tables.  Password dialogues excluded."""
+    dev = make_device(variant)
+    dflt = default_level(variant)
+    inv = {mode_of(variant, n): n for n in variant["names"]}
+    out = []
+    for x in variant["names"]:
+        m = mode_of(variant, x)
+        key = "session" if m.startswith("session:") else m
+        lines = [(l, t) for l, (k, t) in sorted(dev.t["trans"].get(key, {}).items()) if k == "goto"]
+        lines += sorted(dev.moves.get(key, {}).items())
+        if m == "privilege_exec":
+            lines += [(dev.t["session_cmd"] + sname, "session:" + sname) for sname in variant["sessions"]]
+        for (l, t) in lines:
+            if t not in inv:
+                continue
+            out.append((x, "configs", l, t))
+            if x == dflt:
+                out.append((x, "command", l, t))
+    return out
+
+
+def run_history(variant, stack, hist, dst, policy=("whole",)):
+    """a history in which the device's mode is changed by a line the USER sent: the driver reaches
+    hist["reach"] (acquire_priv and/or the operation's own navigation, so that level is what it remembers),
+    hist["lines"] go out through send_command(s) (op "command") or send_configs(privilege_level=reach)
+    (op "configs") — one of them makes the device change its mode —, then acquire_priv(dst)."""
+    sd = _simdevice()
+    warnings.simplefilter("ignore")
+    dev = make_device(variant, vary=hist.get("vary"), secret=SECRET)
+    dev.start()
+    d = build_driver(variant, stack, dev, policy)
+    r = sd.Runner(stack)
+    obs = {"setup_exc": None}
+    try:
+        names, order, cls = observe_tables(variant, d, dev)
+        obs.update(names=names, order=order, cls=cls)
+        try:
+            if hist.get("acquire_first", True):
+                r.call(d.acquire_priv, hist["reach"])
+            if hist["op"] == "command":
+                if len(hist["lines"]) == 1:
+                    r.call(d.send_command, hist["lines"][0])
+                else:
+                    r.call(d.send_commands, list(hist["lines"]))
+            else:
+                r.call(d.send_configs, list(hist["lines"]), privilege_level=hist["reach"])
+        except BaseException as e:  # noqa
+            obs["setup_exc"] = "%s during the history" % type(e).__name__
+            return obs
+        inv = {mode_of(variant, n): n for n in names}
+        if dev.mode not in inv or dev.dialog is not None:
+            obs["setup_exc"] = "the history left the device in %s, not a privilege level" % dev.mode
+            return obs
+        obs.update(actual=inv[dev.mode], belief0=d._current_priv_level.name, visited=sorted({m for (m, _, _) in dev.log}))
+        n0, h0 = len(dev.log), len(dev.hidden_lines)
+        exc = None
+        try:
+            r.call(d.acquire_priv, dst)
+        except Runaway:
+            exc = "Runaway"
+        except BaseException as e:  # noqa
+            exc = type(e).__name__
+        obs.update(exc=exc, mode=dev.mode, belief=d._current_priv_level.name,
+                   log=[(m, bytes(l)) for (m, l, _) in dev.log[n0:]], hidden=[bytes(x) for x in dev.hidden_lines[h0:]],
+                   auth_secondary=d.auth_secondary, asked=dev.secret is not None)
+        return obs
+    finally:
+        r.close()
+
+
+def history_oracle(variant, dst, obs, factor):
+    """the property on a history: whatever the driver remembers, acquire_priv(dst) must leave the DEVICE in
+    dst, by the single-step commands of the vendor path from where the device actually is.  Outside: the
+    device's prompt there is also the prompt of another level and the driver does not remember the right
+    one (levels sharing a prompt cannot be told apart by any driver that reads the prompt — C05's concern,
+    the region of the listed shared-prompt finding).  Returns (why | None, signature, in_region)"""
+    names = obs["names"]
+    a, b0 = obs["actual"], obs["belief0"]
+    ca = obs["cls"][names.index(a)]
+    if ca != [names.index(a)] and b0 != a:
+        return None, None, False
+    why, sig = oracle(variant, a, dst, {"kind": "none"}, obs, factor)
+    return why, sig, True
 
 
 # ------------------------------------------------------------------------------------------------
@@ -289,6 +436,9 @@ def level_edges(variant):
     return sorted((inv[a], inv[b]) for (a, b) in vendor_edges(dev, variant) if a in inv and b in inv)
 
 
+USER_PAT = (r"^h[\w.\-]{0,20}\(", r"\)#$")   # prompt pattern of a user level: h<varying part>(<tag>)#
+
+
 def random_tree(rng, kind):
     """a user-supplied privilege table + the matching vendor CLI.  kind: tree | shared | forest | cycle | ambiguous"""
     n = rng.choice([1, 2, 3, 3, 4, 5, 6, 7, 8])
@@ -324,7 +474,7 @@ def random_tree(rng, kind):
     levels = []
     for i in ids:
         levels.append((name(i), "" if parent[i] is None else name(parent[i]), "go-" + name(i), "leave-" + name(i), auth[i],
-                       r"^h\(%s\)#$" % prompt_tag[i]))
+                       USER_PAT[0] + prompt_tag[i] + USER_PAT[1]))
     trans = {}
     for i in range(n):
         t = {}
@@ -333,7 +483,7 @@ def random_tree(rng, kind):
         for c in kids[i]:
             t["go-" + name(c)] = ("auth" if auth[c] else "goto", name(c))
         trans[name(i)] = t
-    vendor = {"login_modes": [name(0)], "prompt": lambda d, m, pt=prompt_tag: "h(%s)#" % pt[int(m[1:])],
+    vendor = {"login_modes": [name(0)], "prompt": lambda d, m, pt=prompt_tag: "h%s(%s)#" % (d.host, pt[int(m[1:])]),
               "trans": trans, "invalid": "% bad", "submodes": [""]}
     return {"label": "user-%s-%d" % (kind, n), "platform": "user", "sessions": [], "names": [l[0] for l in levels],
             "levels": levels, "vendor": vendor, "kind": kind, "parent": parent,
@@ -352,9 +502,12 @@ def nll(ll):
     return coq_list(["[%s]%%nat" % ";".join(str(x) for x in l) for l in ll])
 
 
-def case_term(variant, src, dst, fault, obs):
+def case_term(variant, src, dst, fault, obs, belief0=None):
+    """belief0: the level the driver remembers when acquire_priv is called (default: src itself)"""
     names = obs["names"]
     ix = names.index
+    b0 = src if belief0 is None else belief0
+    bel0 = "None" if b0 == "DUMMY" else "(Some %d%%nat)" % ix(b0)
     k = fault["kind"]
     pairs = lambda es: coq_list(["(%d,%d)%%nat" % (ix(a), ix(b)) for (a, b) in es])
     stuck = pairs(fault.get("edges", [])) if k in ("refuse", "ignore") else "[]"
@@ -364,9 +517,9 @@ def case_term(variant, src, dst, fault, obs):
     log = coq_list(["(%d%%nat, %s%%N)" % (inv[m], coq_bytes(l)) for (m, l) in obs["log"]])
     hid = coq_list(["%s%%N" % coq_bytes(h) for h in obs["hidden"]])
     bel = "None" if obs["belief"] == "DUMMY" else "(Some %d%%nat)" % ix(obs["belief"])
-    return "((%s, %s, %s, (%s, %s, %s, %s%%N), (%d, %d)%%nat, (%d%%nat, %s, %d%%nat, %s, %s)) : case_t)" % (
+    return "((%s, %s, %s, (%s, %s, %s, %s%%N), (%s, %d%%nat, %d%%nat), (%d%%nat, %s, %d%%nat, %s, %s)) : case_t)" % (
         table_term(variant), nll(obs["order"]), nll(obs["cls"]), stuck, mute, secret,
-        coq_bytes(obs["auth_secondary"].encode()), ix(src), ix(dst),
+        coq_bytes(obs["auth_secondary"].encode()), bel0, ix(src), ix(dst),
         EXC_CODE.get(obs["exc"], 9), bel, inv[obs["mode"]], log, hid)
 
 
@@ -381,10 +534,10 @@ Definition code_ok (o : outcome) (c : nat) : bool :=
   end.
 Definition case_t : Type :=
   (table * list (list nat) * list (list nat) * (list (nat*nat) * list (nat*nat) * option bytes * bytes)
-   * (nat * nat) * (nat * option nat * nat * list (nat * bytes) * list bytes))%type.
+   * (option nat * nat * nat) * (nat * option nat * nat * list (nat * bytes) * list bytes))%type.
 Definition chk (c : case_t) : bool :=
-  let '(tab, order, cls, (stuck, mute, secret, sec), (src, dst), (oc, bel, fm, lg, hid)) := c in
-  let '(o, b, s, tr) := run_acquire gen_factor gen_stop (mkC tab stuck mute secret sec) order cls (Some src) src dst in
+  let '(tab, order, cls, (stuck, mute, secret, sec), (bel0, src, dst), (oc, bel, fm, lg, hid)) := c in
+  let '(o, b, s, tr) := run_acquire gen_factor gen_stop (mkC tab stuck mute secret sec) order cls bel0 src dst in
   order_ok tab order && code_ok o oc && oeqb b bel && (s_mode s =? fm) && log_eqb (s_log s) lg && lbeq (s_hidden s) hid.
 """
 
@@ -410,6 +563,18 @@ def faults_for(variant, src, dst, edges, rng, thorough, on_route):
     elif len(edges) >= 2:
         for _ in range(2):
             fs.append({"kind": rng.choice(["refuse", "ignore"]), "edges": rng.sample(edges, 2)})
+    # devices whose prompt TEXT differs every time it is printed (counter / time of day in the host part):
+    # refusing ones must still be given up on within the bound, compliant ones must still be navigated
+    cand = [{"kind": "wrongpw"}, {"kind": "none"}, {"kind": "absentpw"}]
+    for e in route_e:
+        cand += [{"kind": "refuse", "edges": [e]}, {"kind": "ignore", "edges": [e]}]
+    if thorough:
+        pick = cand + [{"kind": "mute", "edges": [e]} for e in route_e[:1]]
+    else:
+        blocked = cand[3:] or cand[:1]
+        pick = [rng.choice(blocked)] + ([rng.choice(cand)] if rng.random() < 0.5 else [])
+    for f in pick:
+        fs.append(dict(f, vary=rng.choice(VARY[1:])))
     return fs
 
 
@@ -448,6 +613,7 @@ def explore(rep, variant, stacks, pairs, rng, thorough, factor, acc, oracle_on=T
                 d = acc["dist"]
                 for kk in ("variant:" + variant["label"].split("-")[0] + ("-" + variant["kind"] if variant.get("kind") else ""),
                            "fault:" + fault["kind"] + (str(len(fault.get("edges", []))) if fault.get("edges") else ""),
+                           "prompt-text:" + (fault.get("vary") or "constant"),
                            "outcome:" + str(obs["exc"]), "stack:" + stack, "policy:" + policy[0],
                            "attempts:%d" % len(obs["log"])):
                     d[kk] = d.get(kk, 0) + 1
@@ -455,6 +621,56 @@ def explore(rep, variant, stacks, pairs, rng, thorough, factor, acc, oracle_on=T
                     why, sig = oracle(variant, src, dst, fault, obs, factor)
                     if why:
                         acc["fail"].append((sc, obs, why, sig))
+
+
+def explore_histories(rep, variant, stacks, rng, thorough, factor, acc, budget=None):
+    """navigate to X, a user line that makes the device change its mode, acquire_priv(Y)"""
+    moves = user_moves(variant)
+    if budget is not None and len(moves) > budget:
+        moves = rng.sample(moves, budget)
+    names = variant["names"]
+    dflt = default_level(variant)
+    fill = {"command": ["show version", "show clock"], "configs": ["description x", "no shutdown"]}
+    for (x, op, line, tgt) in moves:
+        remembered = dflt if op == "command" else x
+        others = [n for n in names if n != remembered]
+        ys = [(remembered, stacks)]
+        for y in (others if thorough else rng.sample(others, min(1, len(others)))):
+            ys.append((y, stacks if thorough else (rng.choice(stacks),)))
+        for (y, sts) in ys:
+            for stack in sts:
+                k = rng.randrange(3)
+                lines = [line] if k == 0 else ([rng.choice(fill[op]), line] if k == 1 else [rng.choice(fill[op]), line, rng.choice(fill[op])])
+                hist = {"reach": x, "op": op, "lines": lines, "acquire_first": rng.random() < 0.5 or op == "command"}
+                if op == "command" and rng.random() < 0.5:
+                    hist["reach"] = rng.choice(names)      # send_command navigates to the default level itself
+                if rng.random() < 0.2:
+                    hist["vary"] = rng.choice(VARY[1:])
+                policy = ("whole",)
+                if rng.random() < 0.15:
+                    policy = rng.choice([("bytes", 1), ("bytes", 3), ("random", rng.randrange(1 << 30), 9)])
+                obs = run_history(variant, stack, hist, y, policy)
+                sc = {"variant": variant["label"], "stack": stack, "history": hist, "src": obs.get("actual"), "dst": y,
+                      "fault": {"kind": "none"}, "policy": list(policy)}
+                if variant.get("levels") is not None:
+                    sc["user_table"] = {"levels": variant["levels"], "kind": variant["kind"], "parent": variant["parent"]}
+                d = acc["dist"]
+                if obs.get("setup_exc"):
+                    acc["fail"].append((sc, obs, "history on a compliant device failed before acquire_priv: %s" % obs["setup_exc"], None))
+                    d["history:setup_failed"] = d.get("history:setup_failed", 0) + 1
+                    continue
+                a = obs["actual"]
+                rep.case(("hist", variant["label"], stack, json.dumps(hist, sort_keys=True), y), nontrivial=a != obs["belief0"])
+                acc["terms"].append(case_term(variant, a, y, {"kind": "none"}, obs, belief0=obs["belief0"]))
+                acc["cases"].append((sc, obs, variant))
+                why, sig, inside = history_oracle(variant, y, obs, factor)
+                for kk in ("history:" + op, "history:remembered-%s-device" % ("is" if a == obs["belief0"] else "differs-from"),
+                           "history:target-%s" % ("remembered" if y == obs["belief0"] else "actual" if y == a else "other"),
+                           "history:oracle-%s" % ("on" if inside else "off(shared prompt)"), "stack:" + stack, "outcome:" + str(obs["exc"])):
+                    d[kk] = d.get(kk, 0) + 1
+                if why:
+                    acc["fail"].append((sc, obs, "after a user line changed the device's mode (device in %s, driver remembers %s): %s" % (
+                        a, obs["belief0"], why), sig))
 
 
 def obs_json(obs):
@@ -467,6 +683,24 @@ def obs_json(obs):
 
 def core_variants(vs):
     return [{"label": v["label"], "platform": v["platform"], "sessions": v["sessions"], "names": v["names"]} for v in vs]
+
+
+def bare_variants():
+    """the translator rejects the tables: level names straight from constructed drivers, nothing else read"""
+    from gen import gen_privgraph
+    out = []
+    for p in gen_privgraph.PLATFORMS:
+        for k in range(len(gen_privgraph.SESSIONS.get(p, [])) + 1):
+            sess = gen_privgraph.SESSIONS.get(p, [])[:k]
+            try:
+                d = gen_privgraph.driver_class(p)(host="gen", transport="telnet", auth_bypass=True)
+                for x in sess:
+                    d.register_configuration_session(x)
+                names = list(d.privilege_levels.keys())
+            except Exception:  # noqa
+                names = None
+            out.append({"label": p + ("" if k == 0 else "_s%d" % k), "platform": p, "sessions": sess, "names": names})
+    return out
 
 
 def real_timeout_cases(rep, variants, acc):
@@ -520,11 +754,16 @@ def run(rep):
     if ok and not rep.broken:
         props_ok, _ = rep.compile_props("props/C04.v")
     factor = info.get("factor", 2)
+    t1 = time.time()
     # 3. correspondence + oracle
     acc = {"terms": [], "cases": [], "fail": [], "dist": {}, "rt_mismatch": []}
     variants = core_variants(vs) if vs else []
-    if not variants:   # the translator failed: still explore the implementation, with hand-listed variants
-        variants = [{"label": p, "platform": p, "sessions": [], "names": None} for p in gen_privgraph.PLATFORMS]
+    if not variants:   # the translator failed: still explore the implementation (oracle only), tables from the drivers
+        try:
+            variants = core_variants(gen_privgraph.variants())
+        except Exception as e:  # noqa
+            rep.notes.append("no core variants from the translator: %r" % e)
+            variants = bare_variants()
     for v in variants:
         if v["names"] is None:
             continue
@@ -552,6 +791,7 @@ def run(rep):
                         why, sig = oracle(v, a, b, fault, obs, factor)
                         if why:
                             acc["fail"].append((sc, obs, why, sig))
+        explore_histories(rep, v, ("sync", "async"), rng, thorough, factor, acc)
     # user-supplied tables: random trees (with and without shared leaf prompts), then the malformed stream
     n_trees = 60 if thorough else 14
     for i in range(n_trees):
@@ -561,6 +801,8 @@ def run(rep):
         if len(pairs) > (30 if thorough else 6):
             pairs = rng.sample(pairs, 30 if thorough else 6)
         explore(rep, v, ("sync", "async") if i % 2 == 0 else (rng.choice(["sync", "async"]),), pairs, rng, False, factor, acc)
+        if len(v["names"]) > 1:
+            explore_histories(rep, v, (rng.choice(["sync", "async"]),), rng, False, factor, acc, budget=12 if thorough else 3)
     for i in range(40 if thorough else 10):
         v = random_tree(rng, ["forest", "cycle", "ambiguous"][i % 3])
         pairs = [(a, b) for a in v["names"] for b in v["names"] if a != b]
@@ -586,7 +828,9 @@ def run(rep):
                 acc["fail"].append((sc, obs, "regression of fixed finding %s: %s" % (f["id"], why), None))
         except Exception as e:  # noqa
             rep.notes.append("finding %s could not be replayed: %r" % (f.get("id"), e))
+    t2 = time.time()
     bad, log = common.eval_cases(rep.workdir, "cases_c04", HEADER, acc["terms"], "chk") if not [b for b in rep.broken if b.startswith("gen") or b.startswith("Gen")] else (None, "generation failed")
+    t3 = time.time()
     rep.coverage["correspondence"] = {"suite": "net-nav", "cases": len(acc["terms"]), "distribution": dict(sorted(acc["dist"].items())),
                                       "model_disagreements": None if bad is None else len(bad),
                                       "oracle_failures": len(acc["fail"])}
@@ -595,7 +839,9 @@ def run(rep):
     rep.rule = ("scenario = (privilege table variant: 5 core platforms, EOS/NX-OS with 1 and 2 registered sessions, random user trees "
                 "with shuffled dict order / shared leaf prompts, malformed: forest, cycle, ambiguous inner prompt) x ordered pair (source "
                 "navigated to by the driver, target) x fault (none, no password asked, wrong / absent auth_secondary, each refused / "
-                "ignored / silent transition of the route, off-route and double refusals) x sync/asyncio x read chunking; "
+                "ignored / silent transition of the route, off-route and double refusals; the same on devices whose prompt text varies at every "
+                "print) x sync/asyncio x read chunking; histories (level reached, user line that moves the device via send_command(s) / "
+                "send_configs with fillers, acquire_priv of the remembered / another level); "
                 "non-trivial = source != target; distinct = (variant, stack, pair, fault)")
     for (sc, obs, v) in acc["cases"][:1] + acc["cases"][len(acc["cases"]) // 2:len(acc["cases"]) // 2 + 2]:
         rep.sample({"scenario": {k: sc[k] for k in ("variant", "stack", "src", "dst", "fault")}, "exc": obs["exc"], "final_mode": obs["mode"],
@@ -623,7 +869,8 @@ def run(rep):
         rep.broken.append("correspondence net-nav: " + m)
     if (bad or rep.broken) and not unlisted:
         search(rep, variants, factor, rng)
-    rep.notes.append("phase times: total %.1fs" % (time.time() - t0))
+    rep.notes.append("phase times: proofs %.1fs, runs of the real code %.1fs, model evaluation %.1fs, total %.1fs" % (
+        t1 - t0, t2 - t1, t3 - t2, time.time() - t0))
 
 
 def search(rep, variants, factor, rng):
@@ -658,19 +905,31 @@ def _variant_from_scenario(sc):
             if prev:
                 trans[n][de] = ("goto", prev)
                 trans[prev][esc] = ("auth" if auth else "goto", n)
-        tag = {l[0]: l[5][len(r"^h\("):-len(r"\)#$")] for l in levels}
-        vendor = {"login_modes": ["m0"], "prompt": lambda d, m: "h(%s)#" % tag[m], "trans": trans, "invalid": "% bad", "submodes": [""]}
+        pre = [x for x in (USER_PAT[0], r"^h\(") if levels[0][5].startswith(x)][0]   # older replay files: constant prompts
+        tag = {l[0]: l[5][len(pre):-len(USER_PAT[1])] for l in levels}
+        vendor = {"login_modes": ["m0"], "prompt": lambda d, m: "h%s(%s)#" % (d.host, tag[m]), "trans": trans, "invalid": "% bad", "submodes": [""]}
         return {"label": sc["variant"], "platform": "user", "sessions": [], "names": names, "levels": levels, "vendor": vendor,
                 "kind": ut["kind"], "parent": ut["parent"], "rows": []}
-    _, info, vs = gen_privgraph.generate(os.path.join(common.BUILD, "C04"))
-    for v in core_variants(vs):
+    try:
+        vs = core_variants(gen_privgraph.variants())
+    except Exception:  # noqa
+        vs = bare_variants()
+    for v in vs:
         if v["label"] == sc["variant"]:
             return v
     raise SystemExit("unknown variant %s" % sc["variant"])
 
 
-def replay(path):
+def _factor():
+    """the loop-bound factor read from the source; 2 (the documented bound 2*|levels|) when it cannot be read"""
     from gen import gen_privgraph
+    try:
+        return gen_privgraph.bound_factor()
+    except Exception:  # noqa
+        return 2
+
+
+def replay(path):
     r = json.load(open(path))
     sc = r.get("scenario")
     if not sc:
@@ -681,13 +940,24 @@ def replay(path):
     fault = dict(sc["fault"])
     if "edges" in fault:
         fault["edges"] = [tuple(e) for e in fault["edges"]]
+    if "history" in sc:
+        obs = run_history(v, sc["stack"], sc["history"], sc["dst"], tuple(sc.get("policy", ["whole"])))
+        print("scenario:", json.dumps(sc, default=repr)[:900])
+        print("observed:", json.dumps(obs_json(obs), default=repr)[:1500])
+        if obs.get("setup_exc"):
+            print("property FAILS on this input: %s" % obs["setup_exc"])
+            return 1
+        why, sig, inside = history_oracle(v, sc["dst"], obs, _factor())
+        print("property holds on this input%s" % ("" if inside else " (outside: levels sharing a prompt)") if not why else
+              "property FAILS on this input: device in %s, driver remembers %s, acquire_priv(%s): %s" % (obs["actual"], obs["belief0"], sc["dst"], why))
+        return 0 if not why else 1
     obs = run_case(v, sc["stack"], sc["src"], sc["dst"], fault, tuple(sc.get("policy", ["whole"])), blocking=sc.get("blocking"))
     print("scenario:", json.dumps(sc, default=repr)[:600])
     print("observed:", json.dumps(obs_json(obs), default=repr)[:1500])
     if obs.get("setup_exc"):
         print("property FAILS on this input: could not navigate to the source level (%s)" % obs["setup_exc"])
         return 1
-    why, sig = oracle(v, sc["src"], sc["dst"], fault, obs, gen_privgraph.bound_factor())
+    why, sig = oracle(v, sc["src"], sc["dst"], fault, obs, _factor())
     if sc.get("blocking") and not why:
         want = "ScrapliAuthenticationFailed" if fault["kind"] in ("wrongpw", "absentpw") else "ScrapliTimeout"
         if obs["exc"] != want:
@@ -707,13 +977,22 @@ MANIFEST = {
             "ScrapliPrivilegeError, ScrapliAuthenticationFailed or ScrapliTimeout (nav_bounded_tree). reached_sound (partial): with unambiguous "
             "prompts a normal return means the device is in the target, for every device; the full statement is refuted (refusal_full_refuted: "
             "levels sharing a prompt + refused deescalate => normal return in the wrong level - known finding). dfs_sound / dfs_complete for any "
-            "graph. Per platform by vm_compute over the tables regenerated from the source on every run (5 core platforms, EOS/NX-OS with 1 and "
+            "graph. nav_reaches_stale_belief: the property has no 'mode changed only by the driver' proviso (C03 has one) - with the "
+            "hypotheses of nav_reaches, ANY remembered level or DUMMY (a line the user sent through send_command / send_configs moved the "
+            "device) and the prompt of the device's level matched by that level only, the same conclusion (acquire_stale_belief: the "
+            "remembered level is consulted only to choose among several matching levels); core_platforms_stale_belief: by vm_compute over "
+            "every generated table, every remembered level x source with an exact prompt x target x 5 password situations, the byte-level "
+            "result equals the one with the right memory. Per platform by vm_compute over the tables regenerated from the source on every run (5 core platforms, EOS/NX-OS with 1 and "
             "2 registered sessions): is_tree, command distinctness, observed set order, and for ALL ordered pairs under no / every single / every "
             "pair of refused transitions x 5 secondary-password situations: success with exactly the route's command lines in the simulated "
             "device log iff nothing blocks the route, else a bounded PrivilegeError / AuthenticationFailed in front of the first blocked hop "
             "(outside the shared-prompt region). Tie: Gen_PrivGraph.v (tables, set order, loop-bound factor and the send_inputs_interact early-exit "
             "fact by ast) + correspondence of the model with the real sync and asyncio drivers over SimDevice (device log, final mode, belief, "
-            "exception class) on all ordered pairs x faults + an oracle deciding the property on the device's own log from SimDevice's vendor "
+            "exception class) on all ordered pairs x faults, on devices whose prompt TEXT differs at every print (counter / time of day in "
+            "the host part; refusing, ignoring, wrong-password and compliant ones - the bounded-attempts oracle uses a step budget of 600 "
+            "executed lines, no clock) and on histories 'reach X, a user line from the vendor table (or Junos commit and-quit / EOS session "
+            "commit) through send_command(s) / send_configs makes the device change level, acquire_priv(X | Y)' with the stale remembered "
+            "level fed to the model + an oracle deciding the property on the device's own log from SimDevice's vendor "
             "tables. partial: channel reads, regex classification of prompts and real timeouts are observed at run time, not proved.",
     "note": "Section hypotheses of nav_reaches (not axioms): depth function consistent with previous_priv (acyclic), common root, levels < |levels|, "
             "graph sets = tree neighbours in any order, classification contains the mode and is exact on levels that have a child (C05's concern; "
@@ -723,7 +1002,13 @@ MANIFEST = {
             "by computation, not in general. Trusted: the hand model coq/model/PrivGraph.v (driver loop, interactive escalation, simulated "
             "device), gen/gen_privgraph.py, harness/simdevice.py vendor tables, scripted transports (a read that would block raises Starved and "
             "stands for ScrapliTimeout / its AuthenticationFailed mapping; 8 runs per check use really blocking reads with timeout_ops=0.6 s and "
-            "compare the exception class only). Two known findings (known_findings.d/C04.json): auth_secondary typed as a command when no "
+            "compare the exception class only). The model abstracts a prompt to the list of levels matching it: for varying "
+            "prompts three prints per mode are classified by the real _determine_current_priv and must agree (else the run aborts). Histories: "
+            "only the final acquire_priv is modelled (the model starts from the device's level and the remembered level observed before it; "
+            "send_command / send_configs themselves are C03's); the history oracle stays out of the region 'the device's prompt is shared by "
+            "several levels and the driver does not remember the right one' (C05 / the shared-prompt finding). When the translator rejects "
+            "the source the exploration still runs, oracle only (tables from gen_privgraph.variants() or the drivers' level names, factor 2). "
+            "Two known findings (known_findings.d/C04.json): auth_secondary typed as a command when no "
             "password is asked (mirrored by the model through the generated gen_stop flag; repaired on the C12 branch), and the shared-prompt "
             "refusal (acquire_priv returns normally in the wrong level).",
     "technique": "Coq proof (path-visited DFS soundness/completeness on any graph, subtree gate lemmas, hop lemma, route induction with loop "
